@@ -7,7 +7,8 @@
 //   inc_references), `offset` is the distance, in the NEW stream, between the node and the enclosing
 //   Reference, the node starts at 0 of its own frame, the stream advanced by the node's length.
 // Tried, measured, NOT registered (see the note further down and DESIGN 1.5): the four
-// configurations WITH an old node and the expect() equivalence (A4b).
+// configurations WITH an old node (CONFIGS[0..4], kept as data); an expect() equivalence harness
+// (A4b) was tried too and removed.
 // (On failure WITHOUT an old node the implementation pops the caller's entry; this was examined
 // natively and is not, by itself, an observable defect - DESIGN §3/C01 - so it is not asserted.)
 
@@ -98,8 +99,8 @@ fn c01_a4_scratch() {
     a4(CONFIGS[4]);
 }
 
-// The configurations with an old node (CONFIGS[0..4]) and the expect() equivalence (A4b) are kept
-// as code above but are NOT registered: even with a concrete window the reuse decision of affected()
+// The configurations with an old node (CONFIGS[0..4]) are kept as data above but are NOT registered
+// (nor is any expect() harness): even with a concrete window the reuse decision of affected()
 // depends on TokenStream::location_offset(), a pointer subtraction CBMC does not fold, so the result
 // Reference::parse matches on is a symbolic Ok/Err merge and the drop glue explosion described
 // above sets in (no verdict at 16 GB / 150 s per configuration).  Measured, documented, not claimed.
